@@ -60,6 +60,8 @@ var c05Grid = func() []opnd {
 		}},
 		opnd{kind: "regex", name: "/b/", lit: func() Expr { return &RegexLit{Pat: "b"} }},
 		opnd{kind: "regex", name: "/(/", lit: func() Expr { return &RegexLit{Pat: "("} }},
+		opnd{kind: "regex", name: "/^1/", lit: func() Expr { return &RegexLit{Pat: "^1"} }},
+		opnd{kind: "regex", name: "/[a-c]+$/", lit: func() Expr { return &RegexLit{Pat: "[a-c]+$"} }},
 		opnd{kind: "function", name: "f", nov: true, lit: func() Expr { return V("f") }},
 		opnd{kind: "native", name: "printf", nov: true, lit: func() Expr { return V("printf") }},
 	)
@@ -141,9 +143,17 @@ func c05RunExprs(c *Case, exprs []c05Expr) {
 			}
 		} else {
 			// some expression of the batch disagrees: give each its own verdict
+			anyBad := false
 			for k, stm := range members {
 				p := &Program{Items: c05Items(stm)}
-				m2(c, &M2Case{Prog: p, Files: []InFile{{Name: "in.json", Data: docBytes(doc)}}, Budget: 50000, Desc: "operator " + ids[k]})
+				if rr := m2(c, &M2Case{Prog: p, Files: []InFile{{Name: "in.json", Data: docBytes(doc)}}, Budget: 50000, Desc: "operator " + ids[k]}); rr.Verdict != "held" {
+					anyBad = true
+				}
+			}
+			if !anyBad {
+				// every expression is right on its own but the sequence is not: the result of one
+				// evaluation depends on an earlier one (e.g. something cached per expression site)
+				m2(c, &M2Case{Prog: &Program{Items: c05Items(batch)}, Files: []InFile{{Name: "in.json", Data: docBytes(doc)}}, Budget: 50000, Desc: "operator batch (each expression alone agrees, the sequence does not)"})
 			}
 		}
 		batch, members, ids = nil, nil, nil
